@@ -1074,6 +1074,21 @@ func scenC16(g *Gen, dir string) ([]*Op, func(e *Env, i int, op *Op, obs []strin
 			for _, l := range obs[1:] {
 				var sid uint32
 				fmt.Sscan(fieldOf(l, "sig"), &sid)
+				// the signature descriptor must name the key that validated it
+				if ent := fieldOf(l, "ent"); ent != "-" && ent != "" {
+					named := false
+					e.f.WithDescriptors(func(d sif.Descriptor) bool {
+						if d.ID() == sid && d.DataType() == sif.DataSignature {
+							if _, fp, err := d.SignatureMetadata(); err == nil && bytes.Equal(fp, u.PGP[atoi(ent)].PrimaryKey.Fingerprint) {
+								named = true
+							}
+						}
+						return false
+					})
+					if !named {
+						return &Violation{Prop: "C16", Key: "C16:legacy-fingerprint", What: fmt.Sprintf("legacy signature %d verified although its descriptor's fingerprint is not that of the key that signed", sid), Op: i}
+					}
+				}
 				ids := strings.Split(fieldOf(l, "verified"), ",")
 				var cat []byte
 				for _, x := range ids {
